@@ -55,6 +55,15 @@ pub fn check_slice(src: &str, len: isize, l: isize, r: isize) -> CaseResult {
             let s: String = (0..len).map(|i| char::from(b'a' + i as u8)).collect();
             s.chars().slice(l, r).map(|c| (c as u8 - b'a') as isize).collect()
         },
+        "chars-multibyte" => {
+            // size_hint upper bound (bytes) exceeds the real number of items
+            let s: String = (0..len).map(|i| char::from_u32(0x3042 + i as u32).unwrap()).collect();
+            s.chars().slice(l, r).map(|c| (c as u32 - 0x3042) as isize).collect()
+        },
+        "filter" => {
+            // not ExactSize: upper bound 2*len, real length len
+            (0..2 * len).collect::<Vec<isize>>().into_iter().filter(|x| x % 2 == 0).slice(l, r).map(|x| x / 2).collect()
+        },
         _ => {
             let s: String = (0..len).map(|i| format!("{}", i)).collect::<Vec<_>>().join("/");
             Path::new(&s).components().slice(l, r).map(|c| c.as_os_str().to_str().unwrap().parse::<isize>().unwrap()).collect()
@@ -89,6 +98,11 @@ pub fn check_drop(src: &str, len: isize, n: isize) -> CaseResult {
             let s: String = (0..len).map(|i| char::from(b'a' + i as u8)).collect();
             IteratorExt::drop(s.chars(), n).map(|c| (c as u8 - b'a') as isize).collect()
         },
+        "chars-multibyte" => {
+            let s: String = (0..len).map(|i| char::from_u32(0x3042 + i as u32).unwrap()).collect();
+            IteratorExt::drop(s.chars(), n).map(|c| (c as u32 - 0x3042) as isize).collect()
+        },
+        "filter" => IteratorExt::drop((0..2 * len).collect::<Vec<isize>>().into_iter().filter(|x| x % 2 == 0), n).map(|x| x / 2).collect(),
         _ => {
             let s: String = (0..len).map(|i| format!("{}", i)).collect::<Vec<_>>().join("/");
             IteratorExt::drop(Path::new(&s).components(), n).map(|c| c.as_os_str().to_str().unwrap().parse::<isize>().unwrap()).collect()
@@ -232,6 +246,10 @@ pub enum Stmt {
     Block(Vec<Stmt>),
     Return,
     Panic,
+    /// a guard whose closure itself runs a block with its own guards
+    DeferBlock(u32, Vec<Stmt>),
+    /// a guard whose closure panics after logging
+    DeferPanic(u32),
 }
 
 #[derive(PartialEq)]
@@ -258,6 +276,23 @@ fn exec(stmts: &[Stmt]) -> Flow {
             let _guard = defer(move || log(-id));
             exec(&stmts[1..])
         },
+        Some(Stmt::DeferBlock(id, inner)) => {
+            let id = *id as i64;
+            let inner = inner.clone();
+            let _guard = defer(move || {
+                log(-id);
+                exec(&inner);
+            });
+            exec(&stmts[1..])
+        },
+        Some(Stmt::DeferPanic(id)) => {
+            let id = *id as i64;
+            let _guard = defer(move || {
+                log(-id);
+                panic!("generated panic inside a deferred closure");
+            });
+            exec(&stmts[1..])
+        },
         Some(Stmt::Log(id)) => {
             log(*id as i64);
             exec(&stmts[1..])
@@ -282,11 +317,11 @@ enum MFlow {
 
 /// Model: a block's guards run in reverse creation order when the block is left by any means
 fn model(stmts: &[Stmt], out: &mut Vec<i64>) -> MFlow {
-    let mut guards: Vec<i64> = vec![];
+    let mut guards: Vec<&Stmt> = vec![];
     let mut flow = MFlow::Next;
     for s in stmts {
         match s {
-            Stmt::Defer(id) => guards.push(*id as i64),
+            Stmt::Defer(_) | Stmt::DeferBlock(..) | Stmt::DeferPanic(_) => guards.push(s),
             Stmt::Log(id) => out.push(*id as i64),
             Stmt::Block(inner) => {
                 let f = model(inner, out);
@@ -306,9 +341,40 @@ fn model(stmts: &[Stmt], out: &mut Vec<i64>) -> MFlow {
         }
     }
     for g in guards.iter().rev() {
-        out.push(-g);
+        match g {
+            Stmt::Defer(id) => out.push(-(*id as i64)),
+            Stmt::DeferBlock(id, inner) => {
+                out.push(-(*id as i64));
+                let _ = model(inner, out);
+            },
+            Stmt::DeferPanic(id) => {
+                out.push(-(*id as i64));
+                flow = MFlow::Panic; // unwinding continues through the remaining guards
+            },
+            _ => {},
+        }
     }
     flow
+}
+
+/// Keep at most one panic source per program (a second panic while unwinding aborts the process,
+/// which is Rust's rule, not the property's) and no exits inside deferred closures
+fn sanitise(stmts: &mut Vec<Stmt>, panics_left: &mut u32, in_closure: bool) {
+    for s in stmts.iter_mut() {
+        match s {
+            Stmt::Panic | Stmt::DeferPanic(_) => {
+                if *panics_left == 0 || in_closure {
+                    *s = Stmt::Log(99);
+                } else {
+                    *panics_left -= 1;
+                }
+            },
+            Stmt::Return if in_closure => *s = Stmt::Log(98),
+            Stmt::Block(b) => sanitise(b, panics_left, in_closure),
+            Stmt::DeferBlock(_, b) => sanitise(b, panics_left, true),
+            _ => {},
+        }
+    }
 }
 
 fn exits(stmts: &[Stmt]) -> (bool, bool) {
@@ -316,8 +382,8 @@ fn exits(stmts: &[Stmt]) -> (bool, bool) {
     for s in stmts {
         match s {
             Stmt::Return => r.0 = true,
-            Stmt::Panic => r.1 = true,
-            Stmt::Block(b) => {
+            Stmt::Panic | Stmt::DeferPanic(_) => r.1 = true,
+            Stmt::DeferBlock(_, b) | Stmt::Block(b) => {
                 let x = exits(b);
                 r.0 |= x.0;
                 r.1 |= x.1;
@@ -329,6 +395,10 @@ fn exits(stmts: &[Stmt]) -> (bool, bool) {
 }
 
 pub fn check_defer(prog: &[Stmt]) -> CaseResult {
+    let mut prog = prog.to_vec();
+    let mut budget = 1u32;
+    sanitise(&mut prog, &mut budget, false);
+    let prog = &prog[..];
     LOG.with(|l| l.borrow_mut().clear());
     let res = catch(|| {
         exec(prog);
@@ -404,6 +474,8 @@ fn stmt_strategy() -> impl Strategy<Value = Vec<Stmt>> {
         3 => (10u32..20).prop_map(Stmt::Log),
         1 => Just(Stmt::Return),
         1 => Just(Stmt::Panic),
+        1 => (20u32..30).prop_map(Stmt::DeferPanic),
+        2 => ((30u32..40), prop::collection::vec(prop_oneof![(40u32..50).prop_map(Stmt::Defer), (50u32..60).prop_map(Stmt::Log)], 0..4)).prop_map(|(id, b)| Stmt::DeferBlock(id, b)),
     ];
     let stmt = leaf.prop_recursive(3, 24, 5, |inner| prop::collection::vec(inner, 0..5).prop_map(Stmt::Block));
     prop::collection::vec(stmt, 0..7)
@@ -412,7 +484,15 @@ fn stmt_strategy() -> impl Strategy<Value = Vec<Stmt>> {
 /// Exhaustive small programs: all statement lists of length <= n over a small statement alphabet,
 /// with one nested block position
 fn small_programs(max_len: usize) -> Vec<Vec<Stmt>> {
-    let atoms = [Stmt::Defer(1), Stmt::Defer(2), Stmt::Log(10), Stmt::Return, Stmt::Panic];
+    let atoms = [
+        Stmt::Defer(1),
+        Stmt::Defer(2),
+        Stmt::Log(10),
+        Stmt::Return,
+        Stmt::Panic,
+        Stmt::DeferPanic(5),
+        Stmt::DeferBlock(6, vec![Stmt::Defer(7), Stmt::Log(12)]),
+    ];
     let mut flat: Vec<Vec<Stmt>> = vec![vec![]];
     let mut frontier: Vec<Vec<Stmt>> = vec![vec![]];
     for _ in 0..max_len {
@@ -451,9 +531,9 @@ fn small_programs(max_len: usize) -> Vec<Vec<Stmt>> {
 }
 
 pub fn run(c: &Ctx) {
-    c.set_rule("exhaustive: slice(l,r) and drop(n) for all lengths 0..=8 and all indices in -10..=10 on three iterator sources (Vec::into_iter, Path::components, str::chars); first/first_result/last_result/single/some/consume for all lengths 0..=8 (plain and filtered sources); all strings <=3 (quick) / 4 (thorough) symbols over {a,F,f,0,é,ß,İ,space} plus casings of false/true/0 for size/to_bool/trim_suffix/Option::has; defer: every program of <=4 (quick) / 5 (thorough) statements over {defer,defer,log,return,panic} plus nested-block compositions up to depth 3 and a defer! macro family; then seeded random sequences/strings/programs. Oracles: Vec slicing with the documented index normalisation, byte-level char count, str::strip_suffix, ==, longest-prefix, reverse-creation-order model under catch_unwind. Non-trivial = index pair with a negative or out-of-range index / string with a multi-byte char / program with a return or panic exit; distinct by case.");
+    c.set_rule("exhaustive: slice(l,r) and drop(n) for all lengths 0..=8 and all indices in -10..=10 on five iterator sources (Vec::into_iter, Path::components, str::chars ASCII and multi-byte, a filtered Vec iterator whose size_hint over-estimates); first/first_result/last_result/single/some/consume for all lengths 0..=8 (plain and filtered sources); all strings <=3 (quick) / 4 (thorough) symbols over {a,F,f,0,é,ß,İ,space} plus casings of false/true/0 for size/to_bool/trim_suffix/Option::has; defer: every program of <=4 (quick) / 5 (thorough) statements over {defer,defer,log,return,panic,defer-whose-closure-panics,defer-whose-closure-uses-defer} plus nested-block compositions up to depth 3 and a defer! macro family; then seeded random sequences/strings/programs. Oracles: Vec slicing with the documented index normalisation, byte-level char count, str::strip_suffix, ==, longest-prefix, reverse-creation-order model under catch_unwind. Non-trivial = index pair with a negative or out-of-range index / string with a multi-byte char / program with a return or panic exit; distinct by case.");
     // --- iterators (exhaustive) -----------------------------------------------------------------
-    let srcs = ["vec", "components", "chars"];
+    let srcs = ["vec", "components", "chars", "chars-multibyte", "filter"];
     for src in srcs {
         for len in 0..=8isize {
             for l in -10..=10isize {
